@@ -166,7 +166,7 @@ let run_trace infile outfile =
     let x = ref (normalize n x_init) in
     let prev = Array.make (n + 1) (proj_of init_node) in
     let elections = ref 0 and commits = ref 0 and truncs = ref 0 and restarts = ref 0 and maxterm = ref 0 and maxcommit = ref 0 in
-    let compactions = ref 0 and snapshots = ref 0 in
+    let compactions = ref 0 and snapshots = ref 0 and unstable_deliveries = ref 0 in
     let evtext = Buffer.create 4096 in
     let fail = ref None in
     let idx = ref 0 in
@@ -182,6 +182,23 @@ let run_trace infile outfile =
            let outs = (try List.filter_map (fun t -> match t with "P" :: _ -> None | _ -> Some (msg_of_tokens t)) g.g_out
                        with Unmodelled c -> fail := Some (Printf.sprintf "event=%d reason=unmodelled-message %s" !idx c); raise Exit) in
            let base = if String.length g.g_kind > 1 && g.g_kind.[0] = 'X' then "R" else g.g_kind in
+           (* PD = a proposal and, before the Ready loop runs, the delivery of a message: two steps of the
+              model (the proposal has no replies), one observation *)
+           let base, g_args, outs =
+             if base = "PD" then
+               (match g.g_args with
+                | p :: rest ->
+                  (* messages built by the proposal (before the delivered message changed the node) are
+                     sent by the same Ready: they are emissions of the FIRST model step *)
+                  let ev1 = EvPropose (nat_of_int (int_of_string p)) in
+                  let ok1 m = (match model_step c0 c1 !x idn ev1 [m] with Some _ -> true | None -> false) in
+                  let extras1 = List.filter ok1 outs in
+                  (match model_step c0 c1 !x idn ev1 extras1 with
+                   | Some x1 -> x := normalize n x1; incr unstable_deliveries
+                   | None -> fail := Some (Printf.sprintf "event=%d reason=bad-event PD" !idx); raise Exit);
+                  ("D", rest, List.filter (fun m -> not (ok1 m)) outs)
+                | [] -> failwith "bad PD")
+             else (base, g.g_args, outs) in
            let candidates : event list =
              (try match base with
                 | "C" -> [EvCampaign]
@@ -189,7 +206,7 @@ let run_trace infile outfile =
                 | "T" -> [EvTick; EvCampaign]
                 | "K" | "SR" -> [EvTick]   (* compaction / snapshot-status report: no modelled state changes *)
                 | "R" -> [EvRestart]
-                | "D" | "DD" -> [EvRecv (msg_of_tokens g.g_args)]
+                | "D" | "DD" -> [EvRecv (msg_of_tokens g_args)]
                 | "FP" | "FPD" -> (match g.g_args with _ :: _ :: _ :: p :: _ -> [EvPropose (nat_of_int (int_of_string p))] | _ -> failwith "bad FP")
                 | k -> failwith ("unknown event kind " ^ k)
               with Unmodelled c -> fail := Some (Printf.sprintf "event=%d reason=unmodelled-message %s" !idx c); raise Exit) in
@@ -237,8 +254,8 @@ let run_trace infile outfile =
     (match !fail with
      | Some f -> Printf.fprintf oc "S %s FAIL %s\n" !cur_k f
      | None ->
-       Printf.fprintf oc "S %s OK events=%d nodes=%d elections=%d commits=%d truncs=%d restarts=%d compactions=%d snapshots=%d maxterm=%d maxcommit=%d hash=%s\n"
-         !cur_k !idx n !elections !commits !truncs !restarts !compactions !snapshots !maxterm !maxcommit (Digest.to_hex (Digest.string (!header ^ Buffer.contents evtext)))) in
+       Printf.fprintf oc "S %s OK events=%d nodes=%d elections=%d commits=%d truncs=%d restarts=%d compactions=%d snapshots=%d maxterm=%d maxcommit=%d unstabledeliveries=%d hash=%s\n"
+         !cur_k !idx n !elections !commits !truncs !restarts !compactions !snapshots !maxterm !maxcommit !unstable_deliveries (Digest.to_hex (Digest.string (!header ^ Buffer.contents evtext)))) in
   List.iter (fun l ->
       match split_ws l with
       | ["SCHEDULE"; k] -> cur_k := k; groups := []; cur := None
